@@ -1,4 +1,5 @@
 import ServlinVerif.Props.C05
+import ServlinVerif.Props.C05Seq
 open Servlin.C05
 #print axioms C05_write_guards
 #print axioms C05_read_guards
@@ -7,3 +8,8 @@ open Servlin.C05
 #print axioms C05_nothing_after_shutdown
 #print axioms C08_conn
 #print axioms C20_5xx_close
+#print axioms C05_misuse_silent
+#print axioms C05_single_final
+#print axioms C05_auto_continue
+#print axioms owed_only_by_read
+#print axioms final_discharges
